@@ -45,6 +45,7 @@ type c14Subnet struct {
 	ones   int
 	lz     bool   // the network address starts with a zero byte
 	origin string // fresh | dup | sub | super
+	mapped bool   // an IPv4 network written as ::ffff:a.b.c.d/(96+n)
 }
 
 // has reports whether ip lies in the subnet, comparing bytes under the mask.
@@ -331,7 +332,14 @@ func c14Fresh(tp *sim.Tape, v6, lzOK bool) c14Subnet {
 	if tp.Prob("hostbits", 1, 8) {
 		host = tp.Bytes("host", n)
 	}
-	return c14Finish(ip, ones, v6, host, "fresh")
+	sn := c14Finish(ip, ones, v6, host, "fresh")
+	if !v6 && tp.Prob("mapped-spelling", 1, 8) {
+		// the same IPv4 network written in IPv4-mapped IPv6 notation (::ffff:a.b.c.d/(96+n)); an
+		// operator can write it, net.ParseCIDR accepts it, and it denotes the IPv4 network
+		sn.cidr = fmt.Sprintf("::ffff:%s/%d", sn.cidr[:strings.IndexByte(sn.cidr, '/')], 96+ones)
+		sn.mapped = true
+	}
+	return sn
 }
 
 func c14Derive(tp *sim.Tape, e c14Subnet, lzOK bool) c14Subnet {
@@ -713,6 +721,9 @@ func (x *c14Ctx) contain(c c14Call, o c14Out, where string) {
 		}
 		if hit.origin != "fresh" {
 			r.Probe("result/in-" + hit.origin + "-subnet")
+		}
+		if hit.mapped {
+			r.Probe("result/in-ipv4-subnet-written-ipv4-mapped")
 		}
 		return
 	}
@@ -1336,7 +1347,7 @@ func TestVerifC14(t *testing.T) {
 		Assume: []string{
 			"harness test files built with //go:debug asynctimerchan=0; go.work language version 1.22 so that math/rand.Seed seeds the global source (checked at start, otherwise harness trouble)",
 			"pkg/phantoms has no shared mutable state other than the process-global math/rand source and emulated locks: code between two scheduling points is treated as atomic (the draw inside mroth/weightedrand.Chooser.Pick is not a scheduling point of its own; it runs atomically with the Seed before it)",
-			"IPv4-mapped IPv6 networks (::ffff:a.b.c.d/n) are never configured; an IPv4-mapped value inside a configured IPv6 network counts as IPv6",
+			"an IPv4-mapped network text ::ffff:a.b.c.d/(96+n) denotes the IPv4 network a.b.c.d/n (an eighth of the generated IPv4 subnets is written that way); an IPv4-mapped value inside a configured IPv6 network counts as IPv6",
 			"which error a failing selection returns is a don't-care; a zero-weight group being selected is a don't-care of this property",
 			"the flag oracle in the direction 'withheld although every containing subnet allows it' follows DESIGN.md (flag = that subnet's flag); the property text itself only forbids granting",
 		},
